@@ -71,21 +71,27 @@ Fixpoint run_trace {A} (R : reader) (posof : rst R -> N) (p : prog A) (s : rst R
   | Do o k => let '(a, s') := rstep R o s in run_trace R posof (k a) s' ((o, posof s) :: acc)
   end.
 
-(* run with a fault injected at operation index k (0-based): that operation answers RErr e and has no effect *)
+(* run with a fault injected at I/O operation index k (0-based; OAlloc events are not I/O and are not counted):
+   that operation answers RErr e and has no effect on the reader *)
+Definition is_io (o : op) : bool := match o with OAlloc _ => false | _ => true end.
+
 Fixpoint run_fault {A} (R : reader) (p : prog A) (s : rst R) (k : nat) (e : ioerr) : res A * rst R :=
   match p with
   | Ret r => (r, s)
   | Do o c =>
-      match k with
-      | O => run R (c (RErr e)) s
-      | S k' => let '(a, s') := rstep R o s in run_fault R (c a) s' k' e
-      end
+      if is_io o then
+        match k with
+        | O => run R (c (RErr e)) s
+        | S k' => let '(a, s') := rstep R o s in run_fault R (c a) s' k' e
+        end
+      else let '(a, s') := rstep R o s in run_fault R (c a) s' k e
   end.
 
+(* number of I/O operations of the fault-free run *)
 Fixpoint op_count {A} (R : reader) (p : prog A) (s : rst R) : nat :=
   match p with
   | Ret _ => O
-  | Do o k => let '(a, s') := rstep R o s in S (op_count R (k a) s')
+  | Do o k => let '(a, s') := rstep R o s in (if is_io o then S else (fun n => n)) (op_count R (k a) s')
   end.
 
 (* ------------------------------------------------------------------ inputs of any size *)
